@@ -130,6 +130,13 @@ def loadSeq (t : BfType) (w o : Nat) : List Line :=
 def assignSeq (t : BfType) (w o : Nat) : List Line :=
   bfAssignLines w o t.implUnsigned t.implBool [loadIntLine t.implSize t.implUnsigned] (storeIntLines t.implSize)
 
+/-- lines printed for the whole statement `local.member = c`, `member` a bit-field at byte offset `k` of a local object at
+    `d(%rbp)`, `c` an integer constant of the member's type: `gen_addr(lhs)` (ND_MEMBER over ND_VAR: `lea`, `add`), `push()`,
+    `gen_expr(rhs)` (ND_NUM), then the bit-field arm -/
+def assignLocalSeq (d k c : Int) (t : BfType) (w o : Nat) : List Line :=
+  [.ins ⟨"lea", [.m d "%rbp", .r "%rax"]⟩, .ins ⟨"add", [.i k, .r "%rax"]⟩, .ins ⟨"push", [.r "%rax"]⟩, .ins ⟨"mov", [.i c, .r "%rax"]⟩] ++
+  assignSeq t w o
+
 /-! ### on a byte-addressed memory
 
 The unit of a bit-field is the object of the declared type at `mem->offset`; `load` / `store` access exactly its
